@@ -998,6 +998,35 @@ func invariantHolds(p *core.Prog, f *core.Func, mentions []string, depth int) st
 			continue
 		}
 		nret++
+		// tail call `return validate(...)`: this return succeeds exactly when the callee does
+		if res := returnResults(rn); len(res) == 1 && depth < 3 {
+			if call, isC := core.Unparen(res[0]).(*ast.CallExpr); isC {
+				if fn := core.Callee(info, call); fn != nil {
+					if h := p.ByObj[fn.Origin()]; h != nil && h.Body != nil && h != f {
+						tr := make([]string, len(mentions))
+						copy(tr, mentions)
+						for ai, a := range call.Args {
+							po := h.ParamObj(ai)
+							if po == nil {
+								continue
+							}
+							as := canon(a)
+							ptok := p.CanonText(h.RootKey(), po.Name())
+							for i := range tr {
+								if core.ContainsCanon(tr[i], as) {
+									tr[i] = strings.ReplaceAll(tr[i], as, ptok)
+								} else if strings.Contains(as, tr[i]) {
+									tr[i] = ptok
+								}
+							}
+						}
+						if invariantHolds(p, h, tr, depth+1) == "" {
+							continue
+						}
+					}
+				}
+			}
+		}
 		if path := g.PathAvoiding(g.Entry, func(x *core.GNode) bool { return x == rn }, func(x *core.GNode) bool { return passed[x] }); path != nil {
 			bad = "the return at " + p.Rel(rn.Ast.Pos()) + " can be reached without passing a rejecting guard that mentions " + strings.Join(mentions, ", ")
 		}
